@@ -57,6 +57,11 @@ func (t *BaseTraveler) Copy() Traveler {
 		Signal: t.Signal,
 	}
 	for k, v := range t.Marks {
+		if v == nil {
+			// a mark set where there was no element (after render, count, ...)
+			o.Marks[k] = nil
+			continue
+		}
 		o.Marks[k] = &DataElement{
 			ID:    v.ID,
 			Label: v.Label,
